@@ -449,6 +449,8 @@ def log_replay(chk, path):
 # ----------------------------------------------------------------------------------------------------
 # C38  update metadata
 def upd_event_to_script(e):
+    if e.get("kind", "").startswith("pat-"):
+        return "gen kind=%s pre=%s mid=%s post=%s wrap=%d depth=%d src=%s" % (e["kind"], e["pre"], e["mid"], e["post"], e.get("wrap", 0), e["depth"], e.get("src", "replay"))
     if e.get("kind"):
         return "gen kind=%s depth=%d src=%s" % (e["kind"], e["depth"], e.get("src", "replay"))
     return "parse doc=%s src=%s" % (HEX(bytes(e.get("doc", []))), e.get("src", "replay"))
@@ -610,6 +612,26 @@ def upd_run(chk):
     for kind in ("arr", "obj", "arr-open", "obj-open", "extra-arr", "extra-obj"):
         for d in ((10, 100, 127, 128, 129, 1000, 100000) if thorough else (100, 1000, 100000)):
             deep.append("gen kind=%s depth=%d src=deep-%s-%d" % (kind, d, kind, d))
+    # per-level shapes: the nested child preceded / followed by siblings of every value type (a depth counter that is refunded or
+    # not charged for some value type shows only on such shapes), mixed containers, closed and left open
+    sib = ["[]", "{}", "1", '"s"', "null", "true", "[[]]", '{"k":[]}', "[1,2]", "-0.5e1"]
+    shapes = []
+    for i, v in enumerate(sib):
+        shapes.append(("arr-elder%d" % i, "[" + v + ",", "[]", "]"))
+        shapes.append(("obj-elder%d" % i, '{"e":' + v + ',"n":', "{}", "}"))
+        shapes.append(("arr-younger%d" % i, "[", "[]", "," + v + "]"))
+    shapes += [("mixed-ao", '[{"a":', "1", "}]"), ("mixed-oa", '{"a":[', "null", "]}"), ("mixed-elder", '[[],{"e":{},"n":', "[]", "}]"),
+               ("ws", " [ \n", " [ ] ", " ] \t"), ("two-empties", "[[],{},", "[]", "]")]
+    depths = (129, 1000, 100000, 1000000) if thorough else (1000, 200000)
+    for name, pre, mid, post in shapes:
+        pre, mid, post = [x.replace("\\n", "\n").replace("\\t", "\t") for x in (pre, mid, post)]
+        for d in depths:
+            for wrap in (0, 1):
+                for closed in (1, 0):
+                    if not closed and (wrap or d != depths[-1]):
+                        continue
+                    deep.append("gen kind=pat-%s pre=%s mid=%s post=%s wrap=%d depth=%d src=deep-%s-%d-%s%s" % (
+                        name, HEX(pre.encode()), HEX(mid.encode()), HEX(post.encode() if closed else b""), wrap, d, name, d, "w" if wrap else "t", "" if closed else "-open"))
     upd_validate(chk, deep, "deep-nesting", flavours=("plain", "asan") if thorough else ("plain",))
     rnd = ["parse doc=%s src=rnd%d" % (HEX(upd_random_doc(chk.rng)), i) for i in range(6000 if thorough else 700)]
     upd_validate(chk, rnd, "random")
